@@ -36,6 +36,9 @@ pub struct Case {
     /// runtime's task list) instead of tokio::spawn
     #[serde(default)]
     pub local_ticker: bool,
+    /// shutdown requests issued from the last start-up stage of a restart: (k, command) applies to incarnation 2 + k % 3
+    #[serde(default)]
+    pub restart_cmds: Vec<(u8, Cmd)>,
 }
 
 pub struct C09;
@@ -59,6 +62,11 @@ struct Target {
     cmds: Vec<Cmd>,
     tick_cmds: Vec<(u8, u8, Cmd)>,
     local_ticker: bool,
+    restart_cmds: Vec<(u8, Cmd)>,
+}
+
+fn restart_cmd(cmds: &[(u8, Cmd)], inc: i64) -> Option<Cmd> {
+    cmds.iter().find(|(k, _)| 2 + (*k % 3) as i64 == inc).map(|(_, c)| c.clone())
 }
 
 impl Module for Target {
@@ -89,6 +97,10 @@ impl Module for Target {
         if stage == 1 {
             // a (re)started module can use its gates right away
             send(Message::default().id(60_000 + self.inc as u16), "hello");
+            // a restarted module may ask for its next shutdown right away
+            if let Some(c) = restart_cmd(&self.restart_cmds, self.inc) {
+                apply(&c);
+            }
         }
     }
     fn handle_message(&mut self, msg: Message) {
@@ -171,6 +183,7 @@ pub fn run_case(case: &Case) -> Result<(bool, Vec<&'static str>), Failure> {
             cmds: cmds.clone(),
             tick_cmds: case.tick_cmds.clone(),
             local_ticker: case.local_ticker,
+            restart_cmds: case.restart_cmds.clone(),
         },
     );
     sim.node("d", Driver { sends: sends.clone() });
@@ -235,6 +248,7 @@ pub fn run_case(case: &Case) -> Result<(bool, Vec<&'static str>), Failure> {
     let mut down_msgs = 0;
     let mut old_timer_after_restart = false;
     let mut cycles = 0;
+    let mut shutdown_from_restart = false;
     let mut last_shutdown: Option<(u128, i64, u128)> = None; // (time, incarnation, next tick due)
     loop {
         agenda.sort_by_key(|x| (x.0, x.1));
@@ -284,6 +298,12 @@ pub fn run_case(case: &Case) -> Result<(bool, Vec<&'static str>), Failure> {
                 want_b.push(r("b", "brecv", 60_000 + inc, 0, now));
                 if max_ticks >= 1 {
                     push(&mut agenda, now + period, Ev::Tick(inc, 1));
+                }
+                if let Some(c) = restart_cmd(&case.restart_cmds, inc) {
+                    if c != Cmd::Nop {
+                        shutdown_from_restart = true;
+                    }
+                    request = Some(c);
                 }
             }
         }
@@ -362,6 +382,9 @@ pub fn run_case(case: &Case) -> Result<(bool, Vec<&'static str>), Failure> {
     if case.tick_cmds.iter().any(|(_, _, c)| *c != Cmd::Nop) {
         labels.push("shutdown-requested-by-task");
     }
+    if shutdown_from_restart {
+        labels.push("shutdown-requested-in-the-restart-event");
+    }
     if case.local_ticker && max_ticks > 0 {
         labels.push("timer-task-in-the-local-set");
     }
@@ -404,6 +427,7 @@ impl Prop for C09 {
             4 => prop_oneof![Just(0u16), 1u16..8, 8u16..40].prop_map(Cmd::Restart),
         ];
         let hot = prop_oneof![1 => Just(Cmd::Shutdown), 6 => prop_oneof![Just(0u16), 1u16..8, 8u16..40].prop_map(Cmd::Restart)];
+        let hot2 = hot.clone();
         let n = tier.pick(8, 16);
         (
             1u8..7,
@@ -414,8 +438,9 @@ impl Prop for C09 {
             proptest::collection::vec(0u16..80, 0..n),
             proptest::collection::vec((1u8..5, 1u8..8, hot), 0..3),
             proptest::bool::weighted(0.3),
+            proptest::collection::vec((0u8..3, hot2), 0..3),
         )
-            .prop_map(|(period_ms, max_ticks, direct, via_driver, latency_ms, transit, tick_cmds, local_ticker)| Case {
+            .prop_map(|(period_ms, max_ticks, direct, via_driver, latency_ms, transit, tick_cmds, local_ticker, restart_cmds)| Case {
                 period_ms,
                 max_ticks,
                 direct,
@@ -424,6 +449,7 @@ impl Prop for C09 {
                 transit,
                 tick_cmds,
                 local_ticker,
+                restart_cmds,
             })
             .boxed()
     }
